@@ -1,4 +1,122 @@
-import Crs.Bytes
+/-
+  C20 — self-update installs only a newer, checksum-verified release for this platform.
+
+  Model: `Crs.Updater.decideUpdate`. The theorem is about the decision; the run against the fake release
+  service ties the decision to the binary (which bytes end up in the executable, exit status).
+-/
+import Crs.Updater
 namespace Crs.Props
-theorem C20_placeholder : True := trivial
+open Crs Crs.Updater
+
+private theorem newest_mem (cs : List (Version × Release × Asset)) (c : Version × Release × Asset)
+    (h : newest cs = some c) : c ∈ cs := by
+  induction cs generalizing c with
+  | nil => simp [newest] at h
+  | cons x xs ih =>
+    simp only [newest] at h
+    cases hn : newest xs with
+    | none => rw [hn] at h; simp only [Option.some.injEq] at h; simp [← h]
+    | some d =>
+      rw [hn] at h
+      simp only at h
+      split at h
+      · simp only [Option.some.injEq] at h; subst h; exact List.mem_cons_of_mem _ (ih d hn)
+      · simp only [Option.some.injEq] at h; simp [← h]
+
+private theorem verifiedBytes_some (sha256 : Bytes → Bytes) (lookup : ChecksumLookup) (a cs : Asset) (bytes : Bytes)
+    (h : verifiedBytes sha256 lookup a cs = some bytes) :
+    a.content = bytes ∧ a.available = true ∧ cs.available = true ∧ lookup cs.content a.name = some (sha256 bytes) := by
+  unfold verifiedBytes at h
+  split at h
+  · rename_i hav
+    simp only [Bool.and_eq_true] at hav
+    split at h
+    · rename_i digest hl
+      split at h
+      · rename_i hd
+        simp only [Option.some.injEq] at h
+        have : digest = sha256 a.content := by simpa using hd
+        exact ⟨h, hav.1, hav.2, by rw [hl, this, h]⟩
+      · simp at h
+    · simp at h
+  · simp at h
+
+private theorem candidates_mem (isPlatform : Bytes → Bool) (rels : List Release) (v : Version) (r : Release) (a : Asset)
+    (h : (v, r, a) ∈ candidates isPlatform rels) :
+    r ∈ rels ∧ r.draft = false ∧ r.prerelease = false ∧ r.version = some v ∧ platformAsset isPlatform r = some a := by
+  simp only [candidates, List.mem_filterMap] at h
+  obtain ⟨r0, hr0, hsome⟩ := h
+  split at hsome
+  · simp at hsome
+  · rename_i hflags
+    have hflags' : r0.draft = false ∧ r0.prerelease = false := by simpa using hflags
+    split at hsome
+    · rename_i v0 a0 hv0 ha0
+      simp only [Option.some.injEq, Prod.mk.injEq] at hsome
+      obtain ⟨rfl, rfl, rfl⟩ := hsome
+      exact ⟨hr0, hflags'.1, hflags'.2, hv0, ha0⟩
+    · simp at hsome
+
+/-- **C20 (install only if …).** Whenever self-update replaces the executable, the installed bytes are the
+    content of the platform asset `a` of a release `r` of the catalogue such that: the catalogue could be
+    listed; `r` is neither draft nor pre-release and carries a version `v`; the running version is older
+    than `v` (a build without comparable version counts as older); `r` has the checksum file, both downloads
+    succeeded, and the checksum file lists exactly the SHA-256 of the installed bytes under the asset's name. -/
+theorem C20_install_only_if (sha256 : Bytes → Bytes) (lookup : ChecksumLookup) (isPlatform : Bytes → Bool)
+    (listOk : Bool) (rels : List Release) (running : Option Version) (bytes : Bytes)
+    (h : decideUpdate sha256 lookup isPlatform listOk rels running = .install bytes) :
+    listOk = true ∧
+    ∃ v r a cs, r ∈ rels ∧ r.draft = false ∧ r.prerelease = false ∧ r.version = some v ∧
+      platformAsset isPlatform r = some a ∧ a.content = bytes ∧ a.available = true ∧
+      (∀ rv, running = some rv → rv.lt v = true) ∧
+      checksumAsset r = some cs ∧ cs.available = true ∧
+      lookup cs.content a.name = some (sha256 bytes) := by
+  unfold decideUpdate at h
+  split at h
+  · simp at h
+  · rename_i hl
+    refine ⟨by simpa using hl, ?_⟩
+    split at h
+    · simp at h
+    · rename_i v r a hnew
+      obtain ⟨hr, hd, hp, hv, ha⟩ := candidates_mem _ _ _ _ _ (newest_mem _ _ hnew)
+      split at h
+      · simp at h
+      · rename_i cs hcs
+        split at h
+        · simp at h
+        · rename_i hnewer
+          split at h
+          · rename_i b hvb
+            simp only [Decision.install.injEq] at h
+            subst h
+            obtain ⟨h1, h2, h3, h4⟩ := verifiedBytes_some _ _ _ _ _ hvb
+            refine ⟨v, r, a, cs, hr, hd, hp, hv, ha, h1, h2, ?_, hcs, h3, h4⟩
+            intro rv hrv
+            subst hrv
+            simpa [isNewer] using hnewer
+          · simp at h
+
+/-- **C20 (else unchanged).** In every other situation the decision is "up to date" or "fail": the executable
+    keeps its bytes (the model has no other way to produce new bytes). -/
+theorem C20_else_unchanged (sha256 : Bytes → Bytes) (lookup : ChecksumLookup) (isPlatform : Bytes → Bool)
+    (listOk : Bool) (rels : List Release) (running : Option Version) :
+    (∃ bytes, decideUpdate sha256 lookup isPlatform listOk rels running = .install bytes) ∨
+    decideUpdate sha256 lookup isPlatform listOk rels running = .upToDate ∨
+    decideUpdate sha256 lookup isPlatform listOk rels running = .fail := by
+  cases h : decideUpdate sha256 lookup isPlatform listOk rels running with
+  | install b => exact Or.inl ⟨b, rfl⟩
+  | upToDate => exact Or.inr (Or.inl rfl)
+  | fail => exact Or.inr (Or.inr rfl)
+
+/-- a checksum entry that does not match is never installed -/
+theorem C20_mismatch_not_installed (sha256 : Bytes → Bytes) (lookup : ChecksumLookup) (isPlatform : Bytes → Bool)
+    (rels : List Release) (running : Option Version)
+    (hbad : ∀ r ∈ rels, ∀ a cs, platformAsset isPlatform r = some a → checksumAsset r = some cs →
+      lookup cs.content a.name ≠ some (sha256 a.content)) :
+    ∀ bytes, decideUpdate sha256 lookup isPlatform true rels running ≠ .install bytes := by
+  intro bytes h
+  obtain ⟨_, v, r, a, cs, hr, _, _, _, ha, hab, _, _, hcs, _, hl⟩ := C20_install_only_if _ _ _ _ _ _ _ h
+  exact hbad r hr a cs ha hcs (by rw [hab]; exact hl)
+
 end Crs.Props
